@@ -145,6 +145,9 @@ class Ctx:
         self.notes = []
         self.choices = []  # record of concrete choices on this path (name, value)
         self.concretize_divisors = False  # symbolic Int divisors of // and % are forked over their values
+        self._model = None   # a model of side + pc, when one is known
+        self.assume_fractional_floors = False   # floor(x) of a symbolic real assumes x is not an exact integer
+        self._qmodel = None
 
     # -- symbolic inputs (same name => same constant on every re-execution)
     def real(self, name):
@@ -179,6 +182,7 @@ class Ctx:
     def add_side(self, c):
         self.side.append(c)
         self.solver.add(c)
+        self._model = None
 
     def assume(self, cond):
         c = term(cond)
@@ -187,9 +191,11 @@ class Ctx:
             raise PathAbort()
         if z3.is_true(c):
             return
-        r = self._check(c)
-        if r is False:
-            raise PathAbort()
+        if self._model_says(c) is not True:
+            r = self._check(c)
+            if r is False:
+                raise PathAbort()
+            self._model = self._qmodel
         self.pc.append(c)
         self.solver.add(c)
 
@@ -202,10 +208,26 @@ class Ctx:
         STATS.feas_queries += 1
         STATS.feas_s += dt
         if r == z3.sat:
+            self._qmodel = self.solver.model()
             return True
         if r == z3.unsat:
             return False
         raise Inconclusive('feasibility query unknown: %s' % self.solver.reason_unknown())
+
+    def _model_says(self, c):
+        """value of c under the cached model of the current path condition (None if no model / undetermined)"""
+        m = self._model
+        if m is None:
+            return None
+        try:
+            v = m.eval(c, model_completion=True)
+        except z3.Z3Exception:
+            return None
+        if z3.is_true(v):
+            return True
+        if z3.is_false(v):
+            return False
+        return None
 
     def branch(self, cond):
         c = _simp(term(cond))
@@ -216,9 +238,28 @@ class Ctx:
         if self.pos < len(self.decisions):
             taken = self.decisions[self.pos][0]
             self.pos += 1
+            self._model = None      # replayed literals are not checked against the cached model
         else:
-            can_t = self._check(c)
-            can_f = self._check(z3.Not(c))
+            # one side is often witnessed by the model of the path so far: only the other side needs a query
+            val = self._model_says(c)
+            model_t = model_f = None
+            if val is True:
+                can_t, model_t = True, self._model
+                can_f = self._check(z3.Not(c))
+                if can_f:
+                    model_f = self._qmodel
+            elif val is False:
+                can_f, model_f = True, self._model
+                can_t = self._check(c)
+                if can_t:
+                    model_t = self._qmodel
+            else:
+                can_t = self._check(c)
+                if can_t:
+                    model_t = self._qmodel
+                can_f = self._check(z3.Not(c))
+                if can_f:
+                    model_f = self._qmodel
             if can_t and can_f:
                 self.decisions.append([True, False])
                 taken = True
@@ -230,6 +271,7 @@ class Ctx:
                 taken = False
             else:
                 raise PathAbort()
+            self._model = model_t if taken else model_f
             self.pos += 1
         lit = c if taken else z3.Not(c)
         self.pc.append(lit)
@@ -272,6 +314,7 @@ class Ctx:
         lit = c if taken else z3.Not(c)
         self.pc.append(lit)
         self.solver.add(lit)
+        self._model = None
         return taken
 
     # -- nonlinear helpers
@@ -543,6 +586,10 @@ class Sym:
         if isinstance(o, (float, np.floating)) and math.isinf(o):
             return bool(f(0.0, float(o)))
         a, b, _ = _coerce(self, o)
+        g = getattr(self, 'grid', None) or getattr(o, 'grid', None)
+        if g is not None and Ctx.cur is not None:
+            d = real(Sym(a)) - real(Sym(b))
+            Ctx.cur.assume(z3.Or(d == 0, d >= rv(g), d <= -rv(g)))
         return SymB(_simp(f(a, b)))
 
     def __lt__(self, o): return self._cmp(o, lambda a, b: a < b)
@@ -580,6 +627,10 @@ class Sym:
     def __floor__(self):
         if self.is_int:
             return self
+        c = Ctx.cur
+        if c is not None and c.assume_fractional_floors:
+            # exact-integer arguments are where float rounding, not the real-arithmetic model, decides the result: exclude them
+            c.assume(self.e != z3.ToReal(z3.ToInt(self.e)))
         return Sym(_simp(z3.ToInt(self.e)))
 
     def __ceil__(self):
@@ -597,6 +648,8 @@ class Sym:
 
     def round(self, decimals=0, out=None):  # np.round(x, k) calls x.round(decimals=k)
         r = sym_round(self, decimals)
+        if isinstance(r, SymR):
+            return r
         return Sym(real(r)) if isinstance(r, Sym) and not self.is_int else r
 
     def conjugate(self):
@@ -634,6 +687,15 @@ class Sym:
         return f(*inputs)
 
 
+class SymR(Sym):
+    """a value that went through round(x, n >= 6); see sym_round"""
+    __slots__ = ('grid',)
+
+    def __init__(self, e, grid):
+        self.e = e
+        self.grid = grid
+
+
 def sym_round(x, n=None):
     """Python round-half-even is modelled as round-half-up; callers that compare on a rounding grid
     carry the slack themselves (see DESIGN: np.round(x, 10))."""
@@ -644,6 +706,12 @@ def sym_round(x, n=None):
     if n is None or n == 0:
         r = Sym(_simp(z3.ToInt(x.e + z3.RealVal('1/2'))))
         return r
+    if n >= 6:
+        # np.round(x, 10)-style noise suppression: modelled as the identity (exact rounding makes every comparison a
+        # mixed integer-real constraint z3 does not decide in time).  The result remembers its grid: a comparison that
+        # involves it assumes the two sides are equal or at least one grid step apart, which is exactly the region where
+        # comparing the rounded values and comparing the raw values agree.
+        return SymR(x.e, Fraction(1, 10 ** n))
     scale = 10 ** n
     return Sym(_simp(z3.ToReal(z3.ToInt(x.e * scale + z3.RealVal('1/2'))) / scale))
 
